@@ -189,7 +189,7 @@ func deepCopy(v any) any {
 
 func genReq(t *rapid.T, label string, intact *bool) Req {
 	user := rapid.SampledFrom([]string{"alice", "alice", "alice", "bob"}).Draw(t, label+"-user")
-	r := Req{Headers: map[string]string{"Content-Type": "application/json", "X-User-Id": user, "X-Plan-Id": plan}}
+	r := Req{Headers: map[string]string{"Content-Type": "application/json", "X-User-Id": user, "X-Plan-Id": rapid.SampledFrom([]string{plan, plan, plan, plan, "SMALL"}).Draw(t, label+"-plan")}}
 	col := rapid.SampledFrom([]string{"colv2", "colv2", "colv2", "colv1", "nocol", "new1"}).Draw(t, label+"-col")
 	api := "/v2"
 	if col == "colv1" && rapid.Bool().Draw(t, label+"-v1") {
@@ -342,6 +342,9 @@ func genReq(t *rapid.T, label string, intact *bool) Req {
 				{"_id is a number", func(b map[string]any) { pt(b)["_id"] = 7.0 }},
 				{"no points", func(b map[string]any) { b["points"] = []any{} }},
 				{"point larger than the plan's maximum point size", func(b map[string]any) { pt(b)["blob"] = strings.Repeat("x", 600) }},
+				{"point larger than the maximum point size of the request's plan SMALL (not of the plan the collection was created under)", func(b map[string]any) {
+					pt(b)["blob"] = strings.Repeat("x", 200)
+				}},
 			}
 			if kind == "update" {
 				targets = append(targets, targeted{"update without _id", func(b map[string]any) { delete(pt(b), "_id") }},
@@ -490,6 +493,9 @@ func genReq(t *rapid.T, label string, intact *bool) Req {
 			{"v1 vector of the wrong length", func(b map[string]any) { b["points"].([]any)[0].(map[string]any)["vector"] = []any{1.0, 2.0, 3.0} }},
 			{"v1 empty vector", func(b map[string]any) { b["points"].([]any)[0].(map[string]any)["vector"] = []any{} }},
 			{"v1 invalid id", func(b map[string]any) { b["points"].([]any)[0].(map[string]any)["id"] = "zzz" }},
+			{"v1 point larger than the maximum point size of the request's plan SMALL (not of the plan the collection was created under)", func(b map[string]any) {
+				b["points"].([]any)[0].(map[string]any)["metadata"] = map[string]any{"blob": strings.Repeat("x", 200)}
+			}},
 		}
 	case "searchV1":
 		col = "colv1"
@@ -522,6 +528,9 @@ func genReq(t *rapid.T, label string, intact *bool) Req {
 				tg := rapid.SampledFrom(targets).Draw(t, label+"-target")
 				tg.f(bm)
 				r.MustReject = tg.name
+				if strings.Contains(tg.name, "plan SMALL") {
+					r.Headers["X-Plan-Id"] = "SMALL"
+				}
 				if kind == "create" || kind == "createV1" {
 					// a user of its own: otherwise "collection exists" (409) or "quota reached" (403) would
 					// answer the request with a 4xx although the schema violation went unnoticed
@@ -725,7 +734,9 @@ func newServer(dir string) (*server, error) {
 	if err != nil {
 		return nil, err
 	}
-	plans := map[string]models.UserPlan{plan: {Name: plan, MaxCollections: 3, MaxCollectionPointCount: 12, MaxPointSize: 500}}
+	// two plans: collections are created under BASIC; a request names its own plan, whose limits apply
+	plans := map[string]models.UserPlan{plan: {Name: plan, MaxCollections: 3, MaxCollectionPointCount: 12, MaxPointSize: 500},
+		"SMALL": {Name: "SMALL", MaxCollections: 3, MaxCollectionPointCount: 12, MaxPointSize: 150}}
 	s := &server{node: node, h: drive.Router(node, plans)}
 	// baseline population through the API itself
 	hd := drive.JSONHeaders("alice", plan)
